@@ -271,8 +271,8 @@ def check(ctx, run):
             got = "unknown: %s" % u
         run.ob("R4", "set_out_of_memory_countdown(%d)" % c0, sc.site, got == (c0, 1 if c0 == 0 else 0), witness={"counter, switched": got})
     nul = prog.fn("NullUnknownAllocator::alloc_memory")
-    rets = [render(nul, nul.node(n.get("value"))) for n in nul.walk() if n["k"] == "ReturnStmt"]
-    run.ob("R4", "the null allocator returns NULL", nul.site, rets == ["NULL"], witness=rets)
+    rets = getter_fold(prog, nul, "this", token=600)
+    run.ob("R4", "the null allocator returns NULL (folded)", nul.site, rets == 0, witness=rets)
 
     # ---------------- R5 ----------------------------------------------------
     from .C05 import null_checked_uses
